@@ -1298,10 +1298,73 @@ def witnesses(ctx):
                  [Rec('X-FLAG', 'bool', True, {'VALUE': 'BOOLEAN'}, ['BOOLEAN'], [])])
 
 
+def check_last_set_wins(ctx):
+    """a property setter replaces the value: after `c.X = a; c.X = b` the component serialises exactly like a
+    fresh component on which only `c.X = b` was done (same VALUE / TZID parameters, same text), and a value
+    never carries parameters that were given to, or derived for, another value"""
+    from datetime import date, datetime, timedelta, timezone
+    from zoneinfo import ZoneInfo
+    from icalendar import Alarm, Event, Journal, Todo
+    vals = [('date', date(2024, 5, 1)), ('naive', datetime(2024, 5, 1, 10, 30)),
+            ('utc', datetime(2024, 5, 1, 10, 30, tzinfo=timezone.utc)),
+            ('berlin', datetime(2024, 5, 1, 10, 30, tzinfo=ZoneInfo('Europe/Berlin'))),
+            ('ny', datetime(2024, 5, 1, 10, 30, tzinfo=ZoneInfo('America/New_York')))]
+    targets = [(Event, 'DTSTART'), (Event, 'DTEND'), (Event, 'start'), (Event, 'end'), (Todo, 'DTSTART'), (Todo, 'DUE'),
+               (Todo, 'end'), (Journal, 'DTSTART')]
+    for cls, attr in targets:
+        for la, a in vals:
+            for lb, b in vals:
+                if la == lb:
+                    continue
+                ctx.evaluated(('set-twice', cls.__name__, attr, la, lb))
+                c1, c2 = cls(), cls()
+                try:
+                    setattr(c1, attr, a)
+                    setattr(c1, attr, b)
+                    setattr(c2, attr, b)
+                    b1, b2 = c1.to_ical(), c2.to_ical()
+                except Exception as e:  # noqa: BLE001
+                    ctx.violation('setter-history', {'case': [cls.__name__, attr, la, lb]}, f'{type(e).__name__}: {e}')
+                    continue
+                if b1 != b2:
+                    ctx.violation('setter-history', {'case': [cls.__name__, attr, la, lb]},
+                                  f'{cls.__name__}.{attr} = {la}; = {lb} serialises as {b1!r}, but setting only the {lb} value gives {b2!r}')
+    # alarm TRIGGER: duration after datetime and vice versa
+    for seq in ([timedelta(minutes=-5), datetime(2024, 5, 1, 10, tzinfo=timezone.utc)], [datetime(2024, 5, 1, 10, tzinfo=timezone.utc), timedelta(minutes=-5)]):
+        a1, a2 = Alarm(), Alarm()
+        ctx.evaluated(('set-twice-trigger', repr(seq)))
+        a1.TRIGGER = seq[0]
+        a1.TRIGGER = seq[1]
+        a2.TRIGGER = seq[1]
+        if a1.to_ical() != a2.to_ical():
+            ctx.violation('setter-history', {'case': ['Alarm', 'TRIGGER', repr(seq)]}, f'{a1.to_ical()!r} vs {a2.to_ical()!r}')
+    # values built one after the other do not share parameters
+    ctx.evaluated(('param-sharing',))
+    try:
+        e = Event()
+        e.add('dtstart', date(2024, 1, 1), parameters={'X-ORIGIN': 'import'})
+        e.add('dtend', date(2024, 1, 2))
+        f = Event()
+        f.add('exdate', [date(2024, 2, 1)])
+        g = Event()
+        g.add('due', date(2024, 3, 1))
+        shared = [(name, dict(comp[name].params)) for comp, name in ((e, 'DTEND'), (f, 'EXDATE'), (g, 'DUE'))
+                  if set(k.upper() for k in comp[name].params) - {'VALUE'}]
+        if shared:
+            ctx.violation('parameter-shared', {'case': shared[0][0]},
+                          f'{shared[0][0]} carries a parameter that was given to another value: {shared[0][1]}')
+        if e.to_ical().count(b'X-ORIGIN') != 1:
+            ctx.violation('parameter-shared', {'case': 'bytes'}, f'X-ORIGIN was given to DTSTART only: {e.to_ical()!r}')
+    except Exception as ex:  # noqa: BLE001
+        ctx.violation('parameter-shared', {'case': 'exception'},
+                      f'building three independent DATE values failed with {type(ex).__name__}: {ex} (state shared between values?)')
+
+
 def oracle(ctx):
     import icalendar
     try:
         icalendar.use_zoneinfo()
+        check_last_set_wins(ctx)
         witnesses(ctx)
         types_clause(ctx)
         for provider in ('zoneinfo', 'pytz'):
